@@ -246,6 +246,9 @@ func VerifC14_Hooks() {
 	iface := NewInterface(&Options{Local: true, Internal: true})
 	seed := c14NewRec("a/x", 1, false, false)
 	rt.Assert(iface.Put(seed) == nil, "hooks/seed")
+	// (and a record with serialized content)
+	wrapped, werr := record.NewWrapper("t:a/w", nil, 'J', []byte(`{"k":"v"}`))
+	rt.Assert(werr == nil && iface.Put(wrapped) == nil, "hooks/seed")
 	h := &c14Hook{pre: rt.Bool("usespreget"), post: rt.Bool("usespostget"), put: rt.Bool("usespreput"), veto: rt.Choice("veto", 4)}
 	prefix := rt.StrN("prefix", 0, 2)
 	if rt.Bool("replace") {
@@ -287,7 +290,14 @@ func VerifC14_Hooks() {
 		stamp := rt.Bool("interface-always-makes-crownjewel")
 		iface := NewInterface(&Options{Local: true, Internal: true, AlwaysMakeCrownjewel: stamp})
 		var err error
-		switch rt.Choice("modify", 4) {
+		modify := rt.Choice("modify", 5)
+		switch modify {
+		case 4:
+			err = iface.InsertValue("t:a/w", "k2", "v2")
+			if err != nil && !errors.Is(err, errVeto) {
+				// (the value could not be set: nothing was put)
+				return
+			}
 		case 0:
 			err = iface.Delete("t:a/x")
 		case 1:
@@ -313,6 +323,14 @@ func VerifC14_Hooks() {
 			}
 			_, gerr := iface.Get("t:a/x")
 			rt.Assert(gerr == nil, "hooks/vetoed-modification-record-still-visible")
+			if modify == 4 {
+				sw, serr := c.storage.Get("a/w")
+				rt.Assert(serr == nil, "hooks/modify-veto-record-still-stored")
+				if w, ok := sw.(*record.Wrapper); ok {
+					rt.Assert(string(w.Data) == `{"k":"v"}`, "hooks/vetoed-insert-leaves-the-stored-content")
+					rt.Assert(w.Meta().CheckPermission(false, true), "hooks/vetoed-operation-leaves-the-interface-stamp-off")
+				}
+			}
 		} else {
 			rt.Assert(err == nil, "hooks/modify-ok")
 		}
